@@ -239,3 +239,46 @@ Example C19_two_level_example :
   | _, _ => false
   end = true.
 Proof. vm_compute. reflexivity. Qed.
+
+(* ---------------------------------------------------------------------------------- *)
+(* Round 6: the session's OWN header edited while the session is open (Model/LasEnd.v) *)
+(* ---------------------------------------------------------------------------------- *)
+From LasV Require Import Model.AppendCap Model.LasEnd Proofs.EndProofs.
+
+(* whatever the caller did to writer.header / appender.header since the session was opened (hb = what the header serialises to when the session
+   is closed), the guarded in-place rewrite either refuses - nothing is written - or leaves every byte from the first point on, and the length
+   of the file, as they were *)
+Theorem C19_own_header_edited : forall off hb f f', 0 <= off <= len f ->
+  guarded_rewrite off hb f = Ok f' -> tail_from off f' = tail_from off f /\ length f' = length f.
+Proof. exact guarded_rewrite_keeps_points. Qed.
+Print Assumptions C19_own_header_edited.
+
+Theorem C19_own_header_resized_refused : forall off hb f, len hb <> off -> guarded_rewrite off hb f = Err ELaspy.
+Proof. exact guarded_rewrite_refuses. Qed.
+Print Assumptions C19_own_header_resized_refused.
+
+(* ... and an interruption at any byte of an accepted rewrite shows the same point area; a reader that follows (offset, record size) is handed
+   the same records before, during and after it *)
+Theorem C19_own_header_rewrite_image : forall off hb f j, 0 <= off -> len hb = off ->
+  tail_from off (rewrite_image hb f j) = tail_from off f.
+Proof. exact rewrite_image_keeps_points. Qed.
+Print Assumptions C19_own_header_rewrite_image.
+
+Theorem C19_own_header_rewrite_records : forall off hb f j ps c n, 0 <= off -> len hb = off -> 0 <= ps -> 0 <= c ->
+  read_records (rewrite_image hb f j) off ps c n = read_records f off ps c n.
+Proof. exact rewrite_keeps_records. Qed.
+Print Assumptions C19_own_header_rewrite_records.
+
+(* the rewrite WITHOUT the guard is refuted: a header block grown by a whole number of records puts other bytes under the offset *)
+Example C19_unguarded_rewrite_refuted :
+  let f := [76; 65; 83; 70; 1; 2; 3; 4] in
+  tail_from 4 (unguarded_rewrite [76; 65; 83; 70; 9; 9] f) <> tail_from 4 f
+  /\ guarded_rewrite 4 [76; 65; 83; 70; 9; 9] f = Err ELaspy.
+Proof. exact unguarded_rewrite_moves_points. Qed.
+
+(* calls after the first close of an appender (a second close, close inside a with-block, more chunks) are inert: the file is the one the first
+   close produced - to which C19_crash_safe_append / C19_fault_safe_append apply *)
+Theorem C19_after_close_inert : forall ap closef calls post s,
+  snd (arun_ops ap closef s (calls_of calls ++ AoClose :: post)) = Some (closef (acalls ap s calls)).
+Proof. exact after_close_inert. Qed.
+Print Assumptions C19_after_close_inert.
